@@ -36,7 +36,7 @@ Definition summary (l : list (fs N * obs tcode N * state tcode N)) : list (N * l
                      end) l.
 
 Definition ex_run (stats_in_spec : bool) :=
-  run_hist tcode (t_dumps TL) (t_loads TL) N i_compile (fun _ => None) stats_in_spec false (ex_f0, fresh) ex_steps.
+  run_hist tcode (t_dumps TL) (t_loads TL) N i_compile (fun _ => None) stats_in_spec (ex_f0, fresh) ex_steps.
 
 Lemma ex_reload :
   honest_history tcode (t_dumps TL) N i_compile ex_reg ex_f0 ex_steps
